@@ -46,6 +46,8 @@ SEL_LOOP = {"index": "sx", "ghost_assigned": ["KK"], "locals": {"z": "real[N]", 
     "min": f"forall(q, 0, sx, gcv_temp[0] <= {SCORE('q')})",
     "first": f"forall(q, 0, KK, gcv_temp[0] < {SCORE('q')})"}}
 SEL_POST = {
+    # the eigenvalues of the second-difference penalty that the trace formula runs over (d[0] is regularised)
+    "eigenvalues": "d_eigs[0] == 1e-15 and forall(q, 1, N, d_eigs[q] == -2 + 2 * cos(q * pi() / N))",
     "lambda_from_grid": "ite(KK == -1, LOPT == 0, 0 <= KK and KK < M and LOPT == pow(10.0, llas[KK]))",
     "minimal": f"forall(q, 0, M, ite(KK == -1, {SCORE('q')} >= 1000000000000000.0, {SCORE('KK')} <= {SCORE('q')}))",
     "first_minimum": f"forall(q, 0, KK, {SCORE('KK')} < {SCORE('q')})",
